@@ -21,11 +21,15 @@ func (t *ReadBuffers) Receive(bs []byte) ([]byte, bool, error) {
 		return nil, false, nil
 	}
 	seqNum := binary.BigEndian.Uint32(bs[:4])
+	maxSegIdx := binary.BigEndian.Uint16(bs[4:6])
 	segIdx := binary.BigEndian.Uint16(bs[6:8])
+	if segIdx > maxSegIdx {
+		// index beyond the announced count: discard
+		return nil, false, nil
+	}
 
 	buf, ok := t.ReadBuffer[seqNum]
 	if !ok {
-		maxSegIdx := binary.BigEndian.Uint16(bs[4:6])
 		t.ReadBuffer[seqNum] = &ReadBuffer{
 			SegCount: 0,
 			MsgSize:  0,
